@@ -3,6 +3,7 @@
 import os
 import shutil
 import stat
+import tempfile
 
 from . import config, junit, rule_list, utils, vhdlFile
 from .exceptions import ClassifyError, ConfigurationError
@@ -143,10 +144,14 @@ def apply_rules(commandLineArguments, oConfig, tIndexFileName):
 
 
 def write_vhdl_file(oVhdlFile, dConfig):
-    tmpfile = f"{oVhdlFile.filename}.tmp"
+    tmpfile = None
     myStat = os.stat(oVhdlFile.filename)
     try:
-        with open(tmpfile, "w", encoding="utf-8", newline=dConfig.get("linesep")) as oFile:
+        # Every writer gets its own temporary file next to the target.
+        # A shared "<name>.tmp" lets two jobs fixing the same file truncate each other's output.
+        sDirectory, sBaseName = os.path.split(oVhdlFile.filename)
+        iTmpFile, tmpfile = tempfile.mkstemp(prefix=sBaseName + ".", suffix=".tmp", dir=sDirectory or ".")
+        with open(iTmpFile, "w", encoding="utf-8", newline=dConfig.get("linesep")) as oFile:
             oFile.write("\n".join(oVhdlFile.get_lines()[1:]))
             oFile.write("\n")
         os.chmod(tmpfile, myStat.st_mode)
@@ -154,10 +159,11 @@ def write_vhdl_file(oVhdlFile, dConfig):
     except PermissionError as err:
         print(err, "Could not write fixes back to file.")
     finally:
-        try:
-            os.remove(tmpfile)
-        except FileNotFoundError:
-            pass
+        if tmpfile is not None:
+            try:
+                os.remove(tmpfile)
+            except FileNotFoundError:
+                pass
 
 
 def create_junit_testcase(sVhdlFileName, oException):
